@@ -83,7 +83,9 @@ Outcome(m, l, bw) ==
 \* a successful backward frees the saved tensors of the graphs it walked through
 AfterBw(s, bw, ok) == IF bw /\ ok /\ s.g = "live" THEN [s EXCEPT !.g = "freed"] ELSE s
 
-Outcomes == {"fresh", "stale", "raise_dtype", "raise_graph", "raise_inplace"}
+\* "param_grad_differs": outputs agree but the parameters receive other gradients than without the
+\* cache (e.g. a detached cache); never produced by a design in which cached tensors keep their graph
+Outcomes == {"fresh", "stale", "raise_dtype", "raise_graph", "raise_inplace", "param_grad_differs"}
 
 \* o (the outcome relative to recomputing without the cache) and `cached` are parameters of
 \* the action so that they appear in the labels of the dumped state graph
